@@ -67,7 +67,7 @@ def config_args(rng, acc=None, mode=None):
 
 
 D2_FAMS = ["conv_chain", "conv_chain_big", "weights_heavy", "single", "diamond", "mixed_cpu", "lut_heavy", "ew_dag", "weights_heavy",
-           "multi_custom", "siamese", "lut_mixed", "pow2_rescale", "narrowing_chain", "memcpy_reshape", "one_channel_tail", "mixed_exact"]
+           "multi_custom", "siamese", "lut_mixed", "pow2_rescale", "narrowing_chain", "memcpy_reshape", "one_channel_tail", "mixed_exact", "lstm"]
 D2_STRATA = [  # (accelerator, memory mode, system config) combinations that must always be present
     ("ethos-u65-512", "Dedicated_Sram", "Ethos_U65_High_End"), ("ethos-u65-256", "Dedicated_Sram", "Ethos_U65_Mid_End"),
     ("ethos-u65-512", "Shared_Sram", "Ethos_U65_Embedded"), ("ethos-u65-256", "Sram_Only", "Ethos_U65_High_End"),
@@ -101,6 +101,8 @@ def plan_d2(n, seed, capture=True):
 def plan(families, n, seed, tag="", capture=True, fixed_first=True):
     """n jobs spread over the families; every accelerator and memory mode at least once when n allows.
     tag "d2" selects the shared stratified plan (families argument ignored)."""
+    if os.environ.get("VERIF_FAMS"):        # development aid: every generated plan of every check over these families only
+        families, tag = os.environ["VERIF_FAMS"].split(","), tag + "dev"
     if tag == "d2":
         return plan_d2(n, seed, capture)
     rng = random.Random("plan/%s/%s" % (tag, seed))
